@@ -103,7 +103,7 @@ func baseKey(name string) string {
 
 func explicitKind(k string) bool {
 	switch {
-	case k == "ensures", k == "invariant-init", k == "invariant-step", k == "decreases", k == "assert", k == "assigns", k == "unwind", k == "vacuity", k == "ground", k == "frozen":
+	case k == "ensures", k == "invariant-init", k == "invariant-step", k == "decreases", k == "assert", k == "assigns", k == "unwind", k == "vacuity", k == "ground", k == "frozen", k == "split-exhaustive":
 		return true
 	case strings.HasPrefix(k, "requires@"):
 		return true
@@ -166,6 +166,38 @@ func runCheck(repo, verif, prop, tier string, verbose, keep bool) int {
 			}
 		}
 		if !has {
+			if labels := ct.PropFor[prop]; len(labels) > 0 {
+				// the unit serves this property with the named clauses only
+				for _, t := range p.unitTasks(ct) {
+					if t.Drop != nil {
+						keep := false
+						for _, l := range labels {
+							if !contains(t.Drop, l) {
+								keep = true
+							}
+						}
+						if !keep {
+							continue
+						}
+					}
+					if t.Keep != nil {
+						var both []string
+						for _, l := range labels {
+							if contains(t.Keep, l) {
+								both = append(both, l)
+							}
+						}
+						if len(both) == 0 {
+							continue
+						}
+						t.Keep = both
+					} else {
+						t.Keep = labels
+					}
+					t.PropOverride = prop
+					tasks = append(tasks, t)
+				}
+			}
 			continue
 		}
 		tasks = append(tasks, p.unitTasks(ct)...)
@@ -257,6 +289,15 @@ func runCheck(repo, verif, prop, tier string, verbose, keep bool) int {
 		os.RemoveAll(cfg.WorkDir)
 	}
 	return finish(verif, prop, tier, seed, t0, p, units, violations, knownLines, all, cfg, evPath)
+}
+
+func contains(l []string, x string) bool {
+	for _, y := range l {
+		if y == x {
+			return true
+		}
+	}
+	return false
 }
 
 func loadBaseline(verif, prop string) []string {
